@@ -207,9 +207,9 @@ func SV_C19_handlers() {
 // SV_C19_frozen_staking: stake, unstake and stake-withdraw naming a validator
 // that may be frozen.
 //
-// sv:bounds the staking pre-state of SV_C02_step_staking (3 parties, validator B with stake address A) plus a freeze record for B (none, frozen for a byzantine fault, released, frozen for missed votes); kinds STAKE, UNSTAKE, WITHDRAW with havoc payload; mempool-admitted regime
+// sv:bounds the staking pre-state of SV_C02_step_staking (3 parties, validator B with stake address A) plus a freeze record for B (none, frozen for a byzantine fault, released, frozen for missed votes); kinds STAKE, UNSTAKE, WITHDRAW with havoc payload; admitted by Validate on this state, or delivered without it (the freeze can come between the mempool check and the delivery)
 // sv:outside histories
-// sv:goal a staking transaction naming a frozen validator fails; (cover) the same transaction can succeed when the validator is not frozen
+// sv:goal a staking transaction naming a frozen validator fails when delivered, in both regimes; (cover) the same transaction can succeed when the validator is not frozen
 func SV_C19_frozen_staking() {
 	svCurrencyLimit = 1
 	fr := 0
@@ -233,14 +233,26 @@ func SV_C19_frozen_staking() {
 		raw, signers = svBuildStakeWithdraw(e)
 		valAddr = svWithdrawValidator(raw)
 	}
-	r := e.step(raw, signers, true)
+	// the freeze may come after the mempool admitted the transaction (BeginBlock's
+	// missed-vote check, the previous block's verdict): the deliver path itself must
+	// refuse, with or without an admission on this very state
+	admitted := sv.Choice("regime", 2) == 0
+	r := e.step(raw, signers, admitted)
 	ok := r.resp.Code == 0
 	if svParty_(1).Addr.Equal(valAddr) {
 		if fr == 1 || fr == 3 {
 			sv.Assert(!ok, "no-staking-operation-on-a-frozen-validator")
-			sv.Cover(true, "staking-on-frozen-refused")
+			sv.Cover(!admitted, fmt.Sprint("delivered-on-frozen-refused-", kind))
 		} else {
 			sv.Cover(ok, fmt.Sprint("staking-on-unfrozen-ok-", kind))
 		}
 	}
 }
+
+// SV_C11_frozen_guard: nothing is staked, unstaked or withdrawn while the
+// validator is frozen (same exploration as SV_C19_frozen_staking).
+//
+// sv:bounds as SV_C19_frozen_staking
+// sv:outside as SV_C19_frozen_staking
+// sv:goal as SV_C19_frozen_staking
+func SV_C11_frozen_guard() { SV_C19_frozen_staking() }
